@@ -72,7 +72,7 @@ impl Property for C07 {
             .boxed()
     }
     fn quota(tier: Tier) -> u64 {
-        tier.pick(300_000, 6_000_000)
+        tier.pick(1_200_000, 24_000_000)
     }
     fn rule() -> String {
         "Ordered pairs of non-empty valid geometries from the C01 scene generator (all type pairs, nested polygons, operand inside a \
